@@ -336,3 +336,62 @@ def self_wiping(cr, ft, drops):
             if is_state_field(cr, f)[0] and f["name"] not in covered:
                 return None
     return ", ".join(sorted(set(cands)))
+
+
+# ---------------------------------------------------------------- positive controls
+CONTROLS = [
+    ("own.no-shared-static", "CALLS"),
+    ("own.no-shared-static", "LAST"),
+    ("own.fields-by-value", "SharedState"),
+    ("own.clone-fieldwise", "Counter"),
+    ("own.calls-allow-listed", "bmsa_fixtures"),
+    ("leak.debug-opaque", "Leaky"),
+    ("leak.debug-opaque", "DerivedLeak"),
+    ("leak.zeroize-field", "HalfWiped.y"),
+    ("leak.zeroize-field", "SometimesWiped.iv"),
+    ("leak.zeroize-field", "NeverWiped.iv"),
+]
+
+
+def run_controls(rep, which):
+    """compile /verif/fixtures with the same driver and require every deliberately broken specimen
+    to be reported by its rule (rules whose expected count on the real tree is zero must still
+    be able to fire)."""
+    import os
+    import shutil
+    import tempfile
+    from . import facts as FX
+    from .report import Report
+    tmp = tempfile.mkdtemp(prefix="bmsa-fixt-")
+    try:
+        src = os.path.join(FX.VERIF, "fixtures")
+        dst = os.path.join(tmp, "fixtures")
+        shutil.copytree(src, dst, ignore=shutil.ignore_patterns("target"))
+        shutil.copy(os.path.join(FX.REPO, "Cargo.lock"), os.path.join(dst, "Cargo.lock"))
+        out = FX.extract_crate_dir(dst, ["bmsa_fixtures", "cipher", "inout"])
+        try:
+            fb = FX.FactBase("fixtures", directory=out)
+            fx = fb.crates.get("bmsa_fixtures")
+            if fx is None:
+                rep.ob("control.extract", "fixtures", False, "driver produced no facts for the fixtures crate")
+                return
+            fb.workspace = lambda: [fx]
+            sc = Report("controls")
+            check_ownership(sc, fb)
+            check_statics(sc, fb)
+            check_outgoing_calls(sc, fb)
+            check_clone_bodies(sc, fb)
+            check_debug_opaque(sc, fb)
+            fx.j["features"] = ["zeroize"]
+            check_zeroize(sc, fb)
+            for rule, needle in CONTROLS:
+                if not rule.startswith(which):
+                    continue
+                hits = [o for o in sc.obls if o["rule"] == rule and needle in o["instance"] and not o["ok"]]
+                rep.ob("control." + rule, needle, bool(hits), "deliberately broken specimen %s is %sreported by rule %s" % (needle, "" if hits else "NOT ", rule))
+        finally:
+            shutil.rmtree(out, ignore_errors=True)
+    except FX.FactsError as e:
+        rep.ob("control.extract", "fixtures", False, str(e)[-600:])
+    finally:
+        shutil.rmtree(tmp, ignore_errors=True)
